@@ -273,7 +273,21 @@ let fam_c05 tier r =
 let fam_c06 tier r =
   let post = [ terminate (); kill (); wait 0; stop (stop3 (sa 2 10) (sa 3 (-1)) (sa 0 0)); terminate (); kill (); wait 0; destroy () ] in
   let n = if tier = "quick" then 500 else 20000 in
+  (* unusual but legal inputs of start, then the same signalling and reaping calls: the handle must hold
+     a real pid or none *)
+  let odd = List.map (fun (o : options) ->
+      { sc_world = world_with [ b_sleep_forever ]; sc_ops = [ new_ (); start ~opts:o (c 0); pid () ] @ post })
+      [ { default_options with o_env_extra = Some [ s "NOEQUALS" ] }; { default_options with o_env_extra = Some [ s "=lead"; s "A=1" ] };
+        { default_options with o_env_behavior = z 1; o_env_extra = Some [ s "" ] }; { default_options with o_env_extra = Some [] } ] in
+  (* two children, one already a zombie; every call inside the waits / stops of the other one interrupted
+     or failing: a reap must still name the handle's own pid *)
+  let two = { sc_world = world_with [ [ a_sleep 60; a_exit 7 ]; [ a_exit 9 ] ];
+              sc_ops = [ new_ (); new_ ~h:1 (); start (c 0); start ~h:1 (c 1); sleep 30; wait 1000; wait 1000;
+                         stop (stop3 (sa 1 500) (sa 2 100) (sa 3 100)); wait ~h:1 1000; destroy (); destroy ~h:1 () ] } in
+  let interrupted = faults_in_ops ~lat:10 ~errnos:[ 4; 10 ] is_wait_like two in
   [ { name = "C06/start-faults-then-signals"; exhaustive = true; scs = fault_family tier post };
+    { name = "C06/unusual-environment-entries-then-signals"; exhaustive = true; scs = odd };
+    { name = "C06/interrupted-reaps-next-to-a-zombie-sibling"; exhaustive = true; scs = interrupted };
     { name = "C06/random-histories"; exhaustive = false; scs = List.init n (fun k -> rand_history ~io:false (split r k)) } ]
 
 let fam_c12 tier r =
@@ -399,7 +413,14 @@ let fam_c08 tier r =
   ignore r;
   let flt = List.concat_map (faults_in_ops ~lat:20 ~errnos:[ 4 ] (function OS (SWait _) | OS (SPoll _) -> true | _ -> false))
       (List.filteri (fun j _ -> j mod 9 = 0) waits @ List.filteri (fun j _ -> j mod 41 = 0) grid) in
+  (* a deadline that lies weeks in the past (more than 2^31 ms): still "expired", never "24 days away" *)
+  let longpast = List.map (fun gap ->
+      { sc_world = world_with [ [ a_sleep (gap * 3); a_exit 0 ] ];
+        sc_ops = [ new_ (); start ~opts:{ default_options with o_deadline = z 10 } (c 0); sleep gap;
+                   poll ~t:300 [ (0, 2 lor 8) ]; wait (-2); poll ~t:0 [ (0, 14) ]; kill (); wait 1000; destroy () ] })
+      [ 3000; 2147483000; 2147484000; 2592000000; 4294968000; 6000000000 ] in
   [ { name = "C08/source-layouts-x-timeouts-x-activity"; exhaustive = true; scs = grid };
+    { name = "C08/deadline-long-past"; exhaustive = true; scs = longpast };
     { name = "C08/interrupted-waits-and-polls"; exhaustive = true; scs = flt };
     { name = "C08/waits"; exhaustive = true; scs = waits };
     { name = "C08/fork-mode"; exhaustive = true; scs = forkmode };
@@ -500,7 +521,16 @@ let fam_c10 tier r =
         [ default_options; { default_options with o_err = rd 1 }; { default_options with o_discard = true }; { default_options with o_parent = true };
           { default_options with o_in = rd ~h:5 5; o_out = rd ~p:"/tmp/o" 7; o_err = rd 4 }; { default_options with o_in = rd 3; o_out = rd ~f:4 6 } ])
       fd_layouts in
+  (* path targets that do not exist yet (stdin included: "reproc will create or open the file") *)
+  let newpaths = List.map (fun o ->
+      { sc_world = world_with ~fds:user_fds ~files:user_files [ [ a_sleep 10; a_exit 0 ] ];
+        sc_ops = [ new_ (); start ~opts:o (c 0); pid (); sleep 30; wait 100; destroy () ] })
+      [ { default_options with o_in = rd ~p:"/tmp/new-in" 7 }; { default_options with o_in = rd ~p:"/tmp/new-in" 0 };
+        { default_options with o_out = rd ~p:"/tmp/new-out" 7; o_err = rd ~p:"/tmp/new-err" 0 };
+        { default_options with o_in = rd ~p:"/tmp/new-in" 7; o_out = rd ~p:"/tmp/new-out" 7; o_err = rd 4 };
+        { default_options with o_path = Some (s "/tmp/new-all") } ] in
   [ { name = "C10/type-combinations(std open)"; exhaustive = true; scs = std_open };
+    { name = "C10/paths-that-do-not-exist-yet"; exhaustive = true; scs = newpaths };
     { name = "C10/fork-mode-x-closed-std-layouts"; exhaustive = true; scs = forkm };
     { name = "C10/failed-start-then-other-redirects"; exhaustive = true; scs = restart };
     { name = "C10/type-combinations-x-closed-std-layouts"; exhaustive = (tier <> "quick"); scs = layouts };
@@ -550,7 +580,18 @@ let fam_c11 tier r =
                               [ [ a_sleep 10; a_exit 0 ] ];
                  sc_ops = [ new_ (); start (c 0); pid (); wait 100; destroy () ] } in
     faults_in_ops ~lat:0 ~errnos:[ 1; 22 ] ~max_per:400 (function OStart _ -> true | _ -> false) base in
+  (* descriptors behind a long run (more than 4096) of unused numbers, up to limit-1 *)
+  let gaps = List.concat_map (fun (limit, extra) ->
+      List.map (fun fork ->
+          { sc_world = world_with ~rlimit:limit ~fds:(std_fds @ List.map (fun (fd, cx) -> (z fd, fdent ~cx (OExt (z (300 + fd), ARW)))) extra)
+                         [ [ a_sleep 10; a_exit 0 ] ];
+            sc_ops = [ new_ (); (if fork then start ~opts:{ default_options with o_fork = true } ~script:[ a_sleep 10; a_exit 0 ] None else start (c 0));
+                       pid (); wait 100; destroy () ] })
+        [ false; true ])
+      [ (16384, [ (16383, false) ]); (16384, [ (9000, false) ]); (16384, [ (5, false); (6000, false) ]); (16384, [ (16382, true); (16383, false) ]);
+        (65536, [ (40000, false); (65535, false) ]) ] in
   [ { name = "C11/random-descriptor-tables"; exhaustive = false; scs = List.init n one };
+    { name = "C11/descriptors-behind-long-gaps"; exhaustive = true; scs = gaps };
     { name = "C11/caller-handles-and-fork-mode"; exhaustive = true; scs = user };
     { name = "C11/high-descriptors-and-a-failing-call-in-start"; exhaustive = true; scs = nolimit };
     { name = "C11/limit-raised-between-starts"; exhaustive = true; scs = raised };
@@ -584,7 +625,18 @@ let fam_c13 tier r =
         { sc_world = world_with ~fds:user_fds ~files:user_files ~extra_fs:[ (s "/tmp/f", FFile) ] [ b_exit 0 ];
           sc_ops = [ new_ (); start ~opts:o ~script:[ a_exit 0 ] (c 0); pid (); destroy () ] })
         [ 0; 6 ]) [ 1; 2; 3; 4 ]) [ 0; 1; 2 ] in
+  (* start-up input (also the empty one) needs a piped stdin: every other kind of stdin is rejected up front *)
+  let input_x_stdin = List.concat_map (fun size ->
+      List.map (fun o ->
+          { sc_world = world_with ~fds:user_fds ~files:user_files ~extra_fs:[ (s "/tmp/f", FFile) ] [ [ a_readall 0; a_exit 0 ] ];
+            sc_ops = [ new_ (); start ~opts:{ o with o_input_data = true; o_input_size = z size } ~script:[ a_exit 0 ] (c 0); pid (); sleep 30; wait 100; destroy () ] })
+        [ default_options; { default_options with o_in = rd 1 }; { default_options with o_in = rd 2 }; { default_options with o_in = rd 3 };
+          { default_options with o_in = rd ~h:5 5 }; { default_options with o_in = rd ~h:5 0 }; { default_options with o_in = rd ~f:4 6 };
+          { default_options with o_in = rd ~f:4 0 }; { default_options with o_in = rd ~p:"/tmp/f" 7 }; { default_options with o_in = rd ~p:"/tmp/f" 0 };
+          { default_options with o_parent = true }; { default_options with o_discard = true } ])
+      [ 0; 3 ] in
   [ { name = "C13/random-options-through-start"; exhaustive = false; scs = List.init n rr };
+    { name = "C13/start-up-input-x-kind-of-stdin"; exhaustive = true; scs = input_x_stdin };
     { name = "C13/file-redirects-on-standard-streams"; exhaustive = true; scs = std_files } ]
 
 (* ---- C03: launch fidelity ---- *)
@@ -612,6 +664,8 @@ let fam_c03 tier r =
       | _ -> "sub/p", [ dir (cwd ^ (if cwd.[String.length cwd - 1] = '/' then "" else "/") ^ "sub"); prog (cwd ^ (if cwd.[String.length cwd - 1] = '/' then "" else "/") ^ "sub/p") (b_exit 0) ], None in
     let penv = List.init (pick r [ 0; 1; 3; 60 ]) (fun j -> Printf.sprintf "V%d=%s" j (rand_bytes r (rint r 12))) @ (if rbool r then [ "PATH=/bin" ] else []) in
     let extra = if chance r 2 3 then Some (List.init (pick r [ 0; 1; 4 ]) (fun j -> s (Printf.sprintf "E%d=%s" j (rand_bytes r (rint r 12)))) @ (if rbool r then [ s "PATH=/usr/bin:/bin" ] else [])) else None in
+    (* entries without '=' and with a leading '=' are passed through like any other string *)
+    let extra = if tier <> "quick" || k mod 5 = 0 then Option.map (fun l -> l @ [ s (if k mod 2 = 0 then "NOEQUALS" else "=lead") ]) extra else extra in
     let opts = { default_options with o_env_behavior = z (rint r 2); o_env_extra = extra; o_wd = Option.map s wd } in
     { sc_world = world_with ~cwd ~env:penv ~extra_fs:([ dir cwd ] @ extra_fs) [ b_exit 0 ];
       sc_ops = [ new_ (); start ~opts (Some (s prog :: List.map s args)); pid (); destroy () ] } in
@@ -727,6 +781,15 @@ let fam_c16 tier r =
               { sc_world = world_with [ script ];
                 sc_ops = [ new_ (); start ~opts (c 0); drain (); wait 1000; destroy () ] })
             [ 0; 50 ]) [ false; true ]) [ 100; 4095; 4096; 4097; 8192; 12288 ] in
+  (* the status is collected first, the output (small enough to sit in the pipes) drained afterwards *)
+  let after_wait = List.concat_map (fun script ->
+      List.concat_map (fun errmode ->
+          List.map (fun pre ->
+              { sc_world = world_with [ script ];
+                sc_ops = [ new_ (); start ~opts:{ default_options with o_err = rd errmode } (c 0); sleep 50 ] @ pre @ [ drain (); read 1 10; destroy () ] })
+            [ [ wait 1000 ]; [ stop (stop3 (sa 1 500) (sa 2 100) (sa 3 100)) ]; [ kill (); wait 1000 ] ])
+        [ 1; 2 ])
+      [ [ a_write 1 5; a_write 2 3; a_exit 7 ]; [ a_write 1 4096; a_exit 0 ]; [ a_exit 3 ] ] in
   let n = if tier = "quick" then 200 else 8000 in
   let faults = List.init n (fun k ->
       let r = split r k in
@@ -741,7 +804,8 @@ let fam_c16 tier r =
           { sc_world = world_with [ script ];
             sc_ops = [ new_ (); start ~opts:{ default_options with o_err = rd 1; o_deadline = z dl } (c 0); sleep pre; drain (); wait 1000; destroy () ] })
         [ 0; 30; 120 ]) [ 40; 100 ] in
-  [ { name = "C16/drain-x-sinks-x-stderr-x-deadlines"; exhaustive = true; scs = grid };
+  [ { name = "C16/drain-after-the-status-was-collected"; exhaustive = true; scs = after_wait };
+    { name = "C16/drain-x-sinks-x-stderr-x-deadlines"; exhaustive = true; scs = grid };
     { name = "C16/endless-writer-x-deadlines"; exhaustive = true; scs = chatter };
     { name = "C16/exact-buffer-then-quiet"; exhaustive = true; scs = quiet };
     { name = "C16/run_ex-run"; exhaustive = true; scs = run_ex };
@@ -750,12 +814,12 @@ let fam_c16 tier r =
 let fam_c17 tier r =
   let grid = List.concat_map (fun size ->
       List.concat_map (fun (_, script) ->
-          List.map (fun nb ->
-              let opts = { default_options with o_nonblocking = nb; o_err = rd 1 } in
+          List.map (fun (nb, dl) ->
+              let opts = { default_options with o_nonblocking = nb; o_err = rd 1; o_deadline = z dl } in
               { sc_world = world_with [ script ];
                 sc_ops = [ new_ (); start ~opts (c 0); read 1 10; write size; write 1; read 2 10; sleep 25; read 1 70000; write size; read 1 1;
                            close 0; sleep 200; read 1 10; read 2 10; wait 0; destroy () ] })
-            [ true; true; false ])
+            [ (true, 0); (true, 4000); (false, 0) ])
         [ ("idle", [ a_sleep 150; a_exit 0 ]); ("slow-reader", [ a_sleep 20; a_read 0 5000; a_sleep 20; a_readall 0; a_sleep 100; a_exit 0 ]);
           ("writer", [ a_write 1 70000; a_sleep 10; a_write 2 5; a_sleep 100; a_exit 0 ]); ("closes", [ a_close 0; a_close 1; a_sleep 100; a_exit 0 ]) ])
       sizes in
